@@ -183,6 +183,8 @@ def wide_values(w):
             vs |= {2 ** k - 1, 2 ** k, 2 ** k + 1, 2 ** w - 2 ** k, 2 ** (w - 1) + 2 ** k}
     if w > 1:
         vs |= {2 ** (w - 1), 2 ** (w - 1) - 1, sum(1 << i for i in range(0, w, 2)), sum(1 << i for i in range(1, w, 2))}
+    from .. import opseq as _E
+    vs |= {v % (2 ** w) for v in _E.nibble_patterns(w + 1)}        # every hexadecimal digit value occurs
     return sorted(vs)
 
 
@@ -273,6 +275,71 @@ def wide_task(t):
                 elif bool(sols) != inr:
                     report("%s-width-not-enforced" % meth, ww, v, "system %s although the value %s a %d-bit non-negative integer"
                            % ("satisfiable" if sols else "unsatisfiable", "is" if inr else "is not", ww))
+    return {"st": st, "viols": viols, "states": 0}
+
+
+# ------------------------------------------------------------------------------------------------ plain rejection
+
+def reject_task(t):
+    """Out-of-range PLAIN values must be rejected wherever they sit: an IntMod leaf inside Repeat / List schemas, for
+    structured moduli (8-bit wide 129..255, 256, 257, 1000, 2^16-1 ...), each illegal leaf value in every position."""
+    _, p = t
+    import pysnark.pack as P
+    st = {"executions": 0, "transitions": 0, "e2_instances": 0, "nodes": 0, "undecided": 0}
+    viols = {}
+
+    def report(klass, desc, v, text):
+        sig = {"klass": klass, "mode": "plain-nested"}
+        k = common.sig_hash(sig)
+        if k not in viols:
+            viols[k] = {"sig": sig, "count": 0, "what": "schema %s, value %r: %s" % (desc, v, text), "case": {"kind": "reject", "p": p}}
+        viols[k]["count"] += 1
+
+    H.R.p = p
+    for m in (3, 5, 129, 200, 255, 256, 257, 1000, 65535, 65536):
+        bad_leaves = sorted({m, m + 1, -1, (1 << (m - 1).bit_length()) - 1, 1 << (m - 1).bit_length()} - set(range(m)))
+        for shape, mk, good in (("Repeat(IntMod(%d), 3)" % m, lambda: P.PackRepeat(P.PackIntMod(m), 3), [1, m - 1, 0]),
+                                ("List[Bool, IntMod(%d), IntMod(%d)]" % (m, m), lambda: P.PackList([P.PackBool(), P.PackIntMod(m), P.PackIntMod(m)]), [1, 0, m - 1]),
+                                ("Repeat(List[IntMod(%d), Bool], 2)" % m, lambda: P.PackRepeat(P.PackList([P.PackIntMod(m), P.PackBool()]), 2), [[m - 1, 1], [0, 0]]),
+                                ("Repeat(IntMod(%d), 40)" % m, lambda: P.PackRepeat(P.PackIntMod(m), 40), [i % m for i in range(40)])):
+            H.reset(bitlength=24)
+            st["executions"] += 1
+            try:
+                pk = mk()
+                if H.plain(pk.unpack(pk.pack(good), 0)) != good:
+                    report("round-trip-wrong", shape, good, "plain round trip differs")
+            except Exception as ex:  # noqa: BLE001
+                report("round-trip-raises", shape, good, "%s: %s" % (type(ex).__name__, str(ex)[:80]))
+                continue
+            # replace each IntMod leaf by each illegal value
+            def leaves(v, path=()):
+                for i, x in enumerate(v):
+                    if isinstance(x, list):
+                        yield from leaves(x, path + (i,))
+                    else:
+                        yield path + (i,)
+            for path in leaves(good):
+                if shape.startswith("List[Bool") and path == (0,):
+                    continue
+                if shape.startswith("Repeat(List") and path[-1] == 1:
+                    continue
+                if len(good) == 40 and path[0] not in (0, 17, 39):
+                    continue
+                for b in bad_leaves:
+                    import copy
+                    v = copy.deepcopy(good)
+                    tgt = v
+                    for i in path[:-1]:
+                        tgt = tgt[i]
+                    tgt[path[-1]] = b
+                    st["executions"] += 1
+                    try:
+                        mk().pack(v)
+                        report("out-of-range-plain-value-accepted", shape, v if len(v) < 8 else "%s at position %s" % (b, path), "pack accepted the leaf value %d (modulus %d)" % (b, m))
+                    except ValueError:
+                        pass
+                    except Exception as ex:  # noqa: BLE001
+                        report("out-of-range-plain-value-wrong-exception", shape, b, type(ex).__name__)
     return {"st": st, "viols": viols, "states": 0}
 
 
@@ -441,8 +508,8 @@ def pack_task(t):
                     report("value!=wire", desc, v, mode, "unpacked value differs from its wire")
         # a field whose bits are partly secret and partly plain (hand-built bit strings): as soon as one bit is
         # secret the range check applies - all kind patterns x all bit values
-        if desc.startswith("IntMod(") and not big and 2 <= int(desc[7:-1]) <= 7:
-            m = int(desc[7:-1])
+        if spec[0] == "IntMod" and not big and 2 <= spec[1] <= 7:
+            m = spec[1]
             bl_ = (m - 1).bit_length()
             for kindpat in itertools.product((0, 1), repeat=bl_):
                 if not any(kindpat) or all(kindpat):
@@ -469,8 +536,8 @@ def pack_task(t):
                         except Exception as ex:  # noqa: BLE001
                             report("round-trip-raises", desc, val, "mixed", "%s: %s" % (type(ex).__name__, str(ex)[:80]))
         # out-of-range plain values are rejected (IntMod components)
-        if desc.startswith("IntMod("):
-            m = int(desc[7:-1])
+        if spec[0] == "IntMod":
+            m = spec[1]
             for bad in (-1, m, m + 1):
                 st["executions"] += 1
                 try:
@@ -488,7 +555,7 @@ def _init():
 
 
 def _dispatch(t):
-    return width_task(t[1:]) if t[0] == "w" else wide_task(t[1:]) if t[0] == "W" else pack_task(t[1:])
+    return width_task(t[1:]) if t[0] == "w" else wide_task(t[1:]) if t[0] == "W" else reject_task(t[1:]) if t[0] == "R" else pack_task(t[1:])
 
 
 def run(ctx):
@@ -501,6 +568,7 @@ def run(ctx):
         tasks += [("w", n, q) for n in (3, 5) for q in (REC.BLS12_381, REC.CURVE25519)]
     random.Random(ctx.seed).shuffle(sch)
     tasks.append(("p", [("BIG", b) for b in big_schemas(1 if ctx.thorough else 0)], p))
+    tasks.append(("R", None, p))
     nchunk = common.NCPU * 2
     for i in range(nchunk):
         c = sch[i::nchunk]
@@ -532,7 +600,9 @@ def run(ctx):
 
 def replay(case):
     H.bind(case["p"])
-    if case["kind"] == "wide":
+    if case["kind"] == "reject":
+        r = reject_task((None, case["p"]))
+    elif case["kind"] == "wide":
         r = wide_task((case["n"], case["p"]))
     elif case["kind"] == "width":
         r = width_task((case["n"], case["p"]))
